@@ -496,9 +496,10 @@ fn b_monitor() {
                 *e = (seq, Instant::now(), cpu);
                 continue;
             }
+            // (a thread that has exited has no CPU clock any more: never a verdict)
             let burnt = match (cpu, e.2) {
                 (Some(a), Some(b)) => a - b,
-                _ => f64::MAX,
+                _ => 0.0,
             };
             if e.1.elapsed().as_secs() < limit || burnt < limit as f64 * 2.0 / 3.0 {
                 continue;
